@@ -46,11 +46,11 @@ def _linear_family(ctx, fam):
         n, t = shape
         data = barr.fresh("d", (n, t), "float64")
 
-        class Me:
-            pass
+        import importlib
+        _mod = importlib.import_module(rel[:-3].replace("/", "."))
 
         def me(enc):
-            o = Me()
+            o = loopcut.stub_of(getattr(_mod, "%s%s%sSelectionProblem" % (fam, enc, mate)))
             setattr(o, attrs[enc], data)
             setattr(o, attrs[enc].lstrip("_"), data)
             return o
@@ -140,3 +140,90 @@ def u_evalfn(ctx):
 # the usefulness-criterion data of factory-built problems: the same unit as C12's (registered for this property too)
 from contracts import C12 as _c12
 unit(P, _c12.UC_UNIT["name"], _c12.UC_UNIT["mode"], bounded=True, targets=_c12.UC_UNIT["targets"], note=_c12.UC_UNIT["note"])(_c12.u_b_uc)
+
+
+# ---------------------------------------------------------------------------------------------------
+# criteria built on a Cholesky-type factor C: the latent value is the 2-norm of C . contributions (mean genomic
+# relationship; optimal contribution = that norm followed by minus the mean breeding values; L2 genomic distance per trait)
+from pyvc import lemma
+NORMFAM = {
+    "MeanGenomicRelationship": ("MeanGenomicRelationshipSelectionProblem.py", "mgr"),
+    "OptimalContribution": ("OptimalContributionSelectionProblem.py", "ocs"),
+    "L2NormGenomic": ("L2NormGenomicSelectionProblem.py", "l2"),
+}
+
+
+def _norm_family(ctx, fam):
+    import importlib
+    fname, kind = NORMFAM[fam]
+    rel = PROB + fname
+    mod = importlib.import_module((PROB + fname)[:-3].replace("/", "."))
+    fns = {enc: loopcut.Extracted(rel + ":%s%sSelectionProblem.latentfn" % (fam, enc)) for enc in ("Subset", "Real", "Integer", "Binary")}
+    ctx.trust(*lemma.TRUST)
+
+    def body(e, shape, tag):
+        n, r, t = shape                       # candidates, rows of the factor, traits
+        C = barr.fresh("C", (t, r, n) if kind == "l2" else (r, n), "float64")
+        ebv = barr.fresh("b", (n, t), "float64")
+
+        def me(enc):
+            o = loopcut.stub_of(getattr(mod, "%s%sSelectionProblem" % (fam, enc)))
+            for a_ in ("C", "_C"):
+                setattr(o, a_, C)
+            for a_ in ("ebv", "_ebv"):
+                setattr(o, a_, ebv)
+            return o
+
+        def spec_ok(out, w, tot):
+            """out against the definition for contributions w/tot: squared norms (and minus weighted means for OCS)"""
+            cl = []
+            blocks = range(t) if kind == "l2" else [None]
+            for bi, tt in enumerate(blocks):
+                sq = z3.RealVal(0)
+                for rr in range(r):
+                    v = sum(((R(C[tt, rr, i]) if kind == "l2" else R(C[rr, i])) * w[i] for i in range(n)), z3.RealVal(0)) / tot
+                    sq = sq + v * v
+                cl += [R(out[bi]) >= 0, R(out[bi]) * R(out[bi]) == sq]
+            if kind == "ocs":
+                for k in range(t):
+                    cl.append(R(out[1 + k]) == -sum((w[i] * R(ebv[i, k]) for i in range(n)), z3.RealVal(0)) / tot)
+            return z3.And(*cl)
+        nout = t if kind == "l2" else (1 + t if kind == "ocs" else 1)
+        for ksz in range(1, n + 1):
+            for S in itertools.combinations(range(n), ksz):
+                w = [z3.RealVal(1 if i in S else 0) for i in range(n)]
+                for order in (S, tuple(reversed(S))):
+                    out = fns["Subset"](me("Subset"), numpy.array(order))
+                    e.prove("%s:subset%s==definition" % (tag, list(order)), z3.And(len(out) == nout, spec_ok(out, w, z3.RealVal(ksz))))
+                b = numpy.array([1 if i in S else 0 for i in range(n)])
+                for enc, vec in (("Binary", b), ("Integer", 3 * b), ("Real", b * 0.25)):
+                    out = fns[enc](me(enc), vec)
+                    e.prove("%s:%s-encoding-of-subset%s-agrees" % (tag, enc.lower(), list(S)), spec_ok(out, w, z3.RealVal(ksz)))
+        if r > 1 and n > 1:
+            return "ok"       # symbolic contributions with several factor rows: sums of squares of rational functions stay `unknown`
+        x = barr.fresh("x", (n,), "float64", 0, None)
+        a = sym.fresh_real("a")
+        tot = sum((R(x[i]) for i in range(n)), z3.RealVal(0))
+        e.assume(z3.And(tot >= z3.RealVal("1/10000000000"), a.t > 0, a.t * tot >= z3.RealVal("1/10000000000")))
+        out = fns["Real"](me("Real"), x)
+        e.prove(tag + ":real==definition-on-symbolic-contributions", spec_ok(out, [R(x[i]) for i in range(n)], tot))
+        out2 = fns["Real"](me("Real"), x * a)
+        e.prove(tag + ":real-invariant-to-positive-rescaling", spec_ok(out2, [R(x[i]) for i in range(n)], tot))
+        return "ok"
+    modeb.run_shapes(ctx, fam, [(1, 1, 1), (2, 2, 1), (3, 1, 1)] + ([(2, 2, 2), (3, 2, 1)] if ctx.tier == "thorough" else []), body, timeout_ms=20000)
+
+
+def _reg_norm(fam):
+    fname, kind = NORMFAM[fam]
+
+    @unit(P, "B[%s criterion: latent == 2-norm of factor x contributions (and mean values) in all four encodings, order/scale invariant]" % fam,
+          "B", bounded=True, targets=[PROB + fname + ":%s%sSelectionProblem.latentfn" % (fam, enc) for enc in ("Subset", "Real", "Integer", "Binary")],
+          note="bounded(shape): n<=3 candidates, <=2 factor rows, <=2 traits; factor, breeding values and contributions symbolic (sum >= 1e-10); "
+               "the norm is stated through its square (sqrt by its defining law)")
+    def u(ctx):
+        _norm_family(ctx, fam)
+    return u
+
+
+for _f in NORMFAM:
+    _reg_norm(_f)
